@@ -930,6 +930,9 @@ def unstorable(v):
 
 def to_xlsx(spec, path, stored, overrides=None):
     """write a real .xlsx whose formula cells carry `stored[addr]` as results"""
+    # (nan and the infinities cannot be written: such a cell carries no stored result)
+    stored = {a: (None if isinstance(v, float) and unstorable(v) else v)
+              for a, v in stored.items()}
     by_sheet = {s: {} for s in spec['sheets']}
     for a, kind, payload in effective_cells(spec, overrides):
         sheet, coord = split_addr(a)
